@@ -9,6 +9,7 @@ mapping API and compared with a dict model; statistics events are compared
 with "one event per request, after the final part, all parts in order".
 """
 import random
+import struct
 import traceback
 
 from pvm import ctl
@@ -30,7 +31,8 @@ ASSUMPTIONS = ["port names and hardware addresses are unique among the ports "
 REQUIRED = ["port_histories", "views_compared", "renames", "deletes",
             "readds", "stale_name_lookups", "stats_histories",
             "multipart_events", "interleaved_histories", "sequential_pairs",
-            "features_refreshes", "early_port_status"]
+            "features_refreshes", "early_port_status",
+            "other_messages_sharing_a_request_xid"]
 TIMEOUT = {"quick": 900, "thorough": 7200}
 
 REASON_ADD, REASON_DELETE, REASON_MODIFY = 0, 1, 2
@@ -260,6 +262,28 @@ def run_stats (case, rep):
     core.openflow.removeListener(lid)
 
 
+NOISE_KINDS = 12
+
+
+def noise_message (nk, x):
+  E = ofwire.enc_message
+  if nk < 6:
+    # an error of each type, BAD_REQUEST first
+    t = [1, 1, 0, 2, 3, 5][nk]
+    return E("error", dict(xid=x, type=t, code=[1, 0, 0, 0, 2, 0][nk],
+                           data=struct.pack("!BBHL", 1, 4, 12, x) + b"\0\0\x23\x20"))
+  if nk == 6: return E("barrier_reply", dict(xid=x))
+  if nk == 7: return E("echo_reply", dict(xid=x, body=b""))
+  if nk == 8: return E("get_config_reply", dict(xid=x, flags=0, miss_send_len=128))
+  if nk == 9:
+    return E("stats_reply", dict(xid=x, type=0, flags=0, body=dict(
+      mfr_desc="m", hw_desc="h", sw_desc="s", serial_num="1", dp_desc="d")))
+  if nk == 10:
+    return E("packet_in", dict(xid=x, buffer_id=0xffffffff, total_len=14, in_port=1,
+                               reason=0, data=b"\xff" * 6 + b"\x02\0\0\0\0\x01\x88\xb5"))
+  return E("vendor", dict(xid=x, vendor=0x2320, data=b"\0\0\0\x0a" + b"\0" * 12))
+
+
 def _run_stats_body (case, rep, fire, peer, got):
   # requests: list of dict(type, xid, parts=[[ids],...], complete)
   reqs = case["requests"]
@@ -273,6 +297,21 @@ def _run_stats_body (case, rep, fire, peer, got):
         xid=0, reason=REASON_MODIFY, desc=ctl.phy_port(1)))
       if not peer.feed(raw):
         fire("connection closed by unrelated traffic", ""); return True
+      continue
+    if isinstance(which, list):
+      # another message type that happens to carry the transaction id of a
+      # request whose reply is under way (ids are chosen by applications, an
+      # unrelated message of theirs may share one)
+      _, nk, ri = which
+      x = reqs[ri % len(reqs)]["xid"]
+      raw = noise_message(nk, x)
+      rep.count("other_messages_sharing_a_request_xid")
+      before = len(got)
+      if not peer.feed(raw):
+        fire("connection closed by unrelated traffic", "noise kind %d" % nk); return True
+      if len(got) != before:
+        fire("a message that is not a statistics reply raised an aggregated event",
+             "noise kind %d xid %d: %r" % (nk, x, got[before:])); return True
       continue
     r = reqs[which]
     k = progress[which]
@@ -430,6 +469,8 @@ def gen_stats (rng, n):
         for _ in r["parts"]:
           order.append(i)
           if rng.random() < 0.3: order.append("noise")
+          if rng.random() < 0.3:
+            order.append(["noise", rng.randrange(NOISE_KINDS), rng.randrange(nreq)])
       inter = False
     elif mode == "inter":
       pend = [i for i, r in enumerate(reqs) for _ in r["parts"]]
@@ -445,6 +486,10 @@ def gen_stats (rng, n):
                        0 < counts[j] < len(reqs[j]["parts"])]
         if others_open: inter = True
         counts[i] += 1
+      if rng.random() < 0.5:
+        for _ in range(rng.randrange(1, 4)):
+          order.insert(rng.randrange(len(order) + 1),
+                       ["noise", rng.randrange(NOISE_KINDS), rng.randrange(nreq)])
     else:
       # the first request's reply is never finished; a new request follows
       reqs[0]["complete"] = False
